@@ -83,6 +83,7 @@ def judge(chk: Check, wd, recs, meta, tag="c12", mode="C12"):
         r = recs[b["k"] - 1]
         if b["c"].startswith("MACHINERY"):
             chk.gate(False, f"{kind}: the harness stream is not canonical for its discipline ({b['c']})")
+            continue
         chk.violation(f"{b['c']}/{kind}/callback={cb}/{shape if shape in ('whole', 'bytewise') else 'cuts'}",
                       f"{kind} client, callback {cb}, reads cut at {cuts}: delivered {r['delivered']} for tokens {r['tokens']}"
                       f"{' after=' + str(r['after']) if r['after'] else ''}",
@@ -145,6 +146,7 @@ def system_part(chk: Check, wd, tier: str, seed: int):
                 c = bad["v"]["c"]
                 if c.startswith("MACHINERY"):
                     chk.gate(False, f"system replay: {c}")
+                    continue
                 r_ = recs[bad["k"] - 1]
                 chk.violation(f"{c}/{sr.KIND[fmt_]}/callback={cb}",
                               f"{sr.KIND[fmt_]} client, decoder configuration {cfg_}, callback {cb}, reads {reads}..: {c} at read "
